@@ -224,8 +224,9 @@ async fn workload(mut sim: Sim, o: Opts) -> Result<Value, String> {
             config.outbound_request_timeout_ms = [None, Some(60_000), Some(120_000)][sim.rng.gen_range(0..3)];
         }
         if o.mode == "timeouts" {
-            config.inbound_request_timeout_ms = [None, Some(300), Some(800)][sim.rng.gen_range(0..3)];
-            config.outbound_request_timeout_ms = [None, Some(400), Some(900)][sim.rng.gen_range(0..3)];
+            // (a default of zero is a deadline that has already passed)
+            config.inbound_request_timeout_ms = [None, Some(300), Some(800), Some(0)][sim.rng.gen_range(0..4)];
+            config.outbound_request_timeout_ms = [None, Some(400), Some(900), Some(0)][sim.rng.gen_range(0..4)];
         }
         cfgs.push(config.clone());
         let idx = sim
@@ -439,7 +440,10 @@ async fn workload(mut sim: Sim, o: Opts) -> Result<Value, String> {
                 abandon_after: None,
                 abandon_at: None,
                 // (with a limit below the size of any header frame nothing can succeed)
-                must_succeed: !limits.iter().flatten().any(|l| *l < 128),
+                must_succeed: !limits.iter().flatten().any(|l| *l < 128)
+                    // (nor with a default deadline of zero on the way)
+                    && cfgs[a].outbound_request_timeout_ms != Some(0)
+                    && cfgs[b].inbound_request_timeout_ms != Some(0),
             },
         ));
     }
@@ -454,6 +458,9 @@ async fn workload(mut sim: Sim, o: Opts) -> Result<Value, String> {
         for (a, b) in [(0usize, 1usize), (1, 2), (2, 0)] {
             let (out_def, in_def) = (cfgs[a].outbound_request_timeout_ms, cfgs[b].inbound_request_timeout_ms);
             let (None, Some(d)) = (out_def, in_def) else { continue };
+            if d == 0 {
+                continue;
+            }
             let nonce = sim.nonce();
             let mut req = Request::new(Bytes::from_static(b"stall")).with_route(format!("/stall{nonce}"));
             req.headers_mut().insert("delay-ms".into(), (d / 4).to_string());
